@@ -47,6 +47,7 @@ type c14fs struct {
 	encMax     int  // B bitlist: byte length the marshaller itself refuses (0 = none)
 	cnt        int  // L: the list is a vector of exactly cnt items
 	noItemOver bool // L: the item limit is too large to exceed in a test
+	hugeCount  bool // L: max count so large that over-count values are megabytes: only one boundary pair per run
 	nibble     bool // B: every byte is a nibble (< 16)
 }
 
@@ -479,7 +480,7 @@ func c14gen(c *Ctx, t *c14type, over int) ([]c14field, bool) {
 			if s.cnt > 0 {
 				cnt = s.cnt
 			}
-			overCount := ov && (s.itemMax == 0 && s.itemExact == 0 || s.noItemOver || r.Bool())
+			overCount := ov && (s.itemMax == 0 && s.itemExact == 0 || s.noItemOver || r.Bool()) && (!s.hugeCount || c.Tier == "thorough" && r.Intn(8) == 0)
 			if overCount {
 				violated = true
 				cnt = s.max + 1 + []int{0, 0, 1, r.Intn(8)}[r.Intn(4)]
@@ -654,11 +655,14 @@ func c14rawList(prefix []byte, items [][]byte) []byte {
 
 // c14overRaw emits well-formed encodings of values just beyond a limit of the LAST field (the marshallers refuse to
 // produce them, so they are built by hand): one more byte, one more item, one over-long item.
-func c14overRaw(c *Ctx, t *c14type) {
+func c14overRaw(c *Ctx, t *c14type, round int) {
 	r := c.Rng
 	last := t.fields[len(t.fields)-1]
-	if last.max > 1000 && last.kind == 'L' {
-		return // too large for the model side
+	if last.max > 1000 && last.kind == 'L' && last.arr == 0 && last.itemExact == 0 {
+		return // too large for the model side (lists of variable-size items are sliced quadratically there)
+	}
+	if last.hugeCount && (round > 0 || c.Tier != "thorough") {
+		return // megabytes per case: the count boundary of such a list is exercised in the thorough tier only
 	}
 	base, _ := c14gen(c, t, -1)
 	li := len(t.fields) - 1
@@ -698,16 +702,91 @@ func c14overRaw(c *Ctx, t *c14type) {
 			l = mk(1, last.itemMax+1)
 			c14bytes(c, t, c14rawList(prefix, l))
 		}
-	case last.kind == 'L' && last.arr > 0 && last.cnt == 0:
+	case last.kind == 'L' && (last.arr > 0 || last.itemExact > 0) && last.cnt == 0:
+		isz := last.arr + last.itemExact
 		l := make([][]byte, last.max)
 		for i := range l {
-			l[i] = r.Bytes(last.arr)
+			l[i] = r.Bytes(isz)
 		}
 		base[li].l = l
 		if enc, obs := c14enc(t, base); strings.HasPrefix(obs, "ok") {
 			c.Count("type_" + t.name + "_bytes_overlimit_raw")
 			c14bytes(c, t, enc)
-			c14bytes(c, t, append(cp(enc), r.Bytes(last.arr)...))
+			c14bytes(c, t, append(cp(enc), r.Bytes(isz)...))
+		}
+	}
+}
+
+// c14dynFields lists the indices of the variable-size fields, in layout order (fixOffs[j] is the offset of the j-th).
+func c14dynFields(t *c14type) []int {
+	var d []int
+	for i, s := range t.fields {
+		if (s.kind == 'B' && s.arr == 0 && s.exact == 0) || s.kind == 'L' && s.cnt == 0 || s.kind == 'U' {
+			d = append(d, i)
+		}
+	}
+	return d
+}
+
+// c14insertAt inserts ins at byte position pos (the end of the j-th variable-size field's region, or inside it) and
+// moves the offsets of the following variable-size fields accordingly.
+func c14insertAt(t *c14type, enc []byte, j int, pos int, ins []byte) []byte {
+	m := append(append(cp(enc[:pos]), ins...), enc[pos:]...)
+	for k := j + 1; k < len(t.fixOffs); k++ {
+		c14putU32(m, t.fixOffs[k], c14getU32(m, t.fixOffs[k])+uint32(len(ins)))
+	}
+	return m
+}
+
+// c14overMiddle: for every variable-size byte field that is NOT the last one, an encoding with that field at its
+// limit and one with the field one byte longer (following offsets moved); and, for a list of variable-size items
+// that is not the last region, the zero-first-offset encoding 00000000 of the empty list in its place.
+func c14overMiddle(c *Ctx, t *c14type) {
+	dyn := c14dynFields(t)
+	if len(dyn) != len(t.fixOffs) || len(dyn) < 2 {
+		return
+	}
+	r := c.Rng
+	for j, fi := range dyn[:len(dyn)-1] {
+		s := t.fields[fi]
+		base, _ := c14gen(c, t, -1)
+		for _, k := range dyn {
+			switch t.fields[k].kind {
+			case 'B':
+				base[k].b = r.Bytes(r.Intn(20))
+			case 'L':
+				base[k].l = [][]byte{r.Bytes(3)}
+			case 'U':
+				base[k].nl = []uint64{7}
+			}
+		}
+		switch {
+		case s.kind == 'B' && s.max > 0 && !s.bitlist:
+			base[fi].b = r.Bytes(s.max)
+			enc, obs := c14enc(t, base)
+			if !strings.HasPrefix(obs, "ok") {
+				continue
+			}
+			end := int(c14getU32(enc, t.fixOffs[j+1]))
+			if end > len(enc) {
+				continue
+			}
+			c.Count("type_" + t.name + "_bytes_overlimit_middle")
+			c14bytes(c, t, enc)
+			c14bytes(c, t, c14insertAt(t, enc, j, end, []byte{byte(r.Intn(256))}))
+		case s.kind == 'L' && s.itemMax > 0:
+			base[fi].l = nil
+			enc, obs := c14enc(t, base)
+			if !strings.HasPrefix(obs, "ok") {
+				continue
+			}
+			end := int(c14getU32(enc, t.fixOffs[j+1]))
+			if end > len(enc) {
+				continue
+			}
+			c.Count("type_" + t.name + "_bytes_zero_offset_middle")
+			c14bytes(c, t, c14insertAt(t, enc, j, end, []byte{0, 0, 0, 0}))
+			c14bytes(c, t, c14insertAt(t, enc, j, end, []byte{4, 0, 0, 0}))
 		}
 	}
 }
@@ -819,7 +898,7 @@ func runC14(c *Ctx) {
 	for _, t := range c14types {
 		nv, nb = nv0, nb0
 		if t.small {
-			nv, nb = 4, 12
+			nv, nb = 3, 8
 		} else if c.Tier != "thorough" && c.N == 0 {
 			// shard the quick budget: types whose values are tens of kilobytes get fewer cases
 			for _, s := range t.fields {
@@ -864,7 +943,8 @@ func runC14(c *Ctx) {
 			}
 		}
 		for k := 0; k < 3; k++ {
-			c14overRaw(c, t)
+			c14overRaw(c, t, k)
+			c14overMiddle(c, t)
 		}
 		if len(pool) == 0 {
 			pool = append(pool, prefix)
